@@ -397,8 +397,11 @@ func (xr *Reader) decodeIndex(idx *index) error {
 		return errVLI
 	}
 
-	for i := int64(0); i < numRecs; i++ {
+	for i := int64(0); i < numRecs && errVLI == nil; i++ {
 		xr.chunks = append(xr.chunks, chunk{readVLI(), readVLI(), 0})
+	}
+	if errVLI != nil {
+		return errVLI
 	}
 	if xr.bw.Len() != 4 || binary.LittleEndian.Uint32(xr.bw.Bytes()) != crc {
 		return errCorrupted
